@@ -120,6 +120,17 @@ type Exists struct{ P Expr }
 type Read struct{ P Expr }
 type Input struct{ Prompt Expr } // Prompt may be nil
 
+// AppOne is one program call of a pipeline: @name(args) or @"path"(args).
+type AppOne struct {
+	Name    string
+	Literal bool // name given as string literal
+	Raw     bool // ... as raw string literal
+	Args    []Expr
+}
+
+// App is a call chain @a(...) | @b(...). As a value it yields (stdout string, stderr string, code int).
+type App struct{ Calls []AppOne }
+
 func (IntLit) T() Type   { return TInt }
 func (BoolLit) T() Type  { return TBool }
 func (StrLit) T() Type   { return TString }
@@ -144,6 +155,7 @@ func (Copy) T() Type       { return TInt }
 func (Exists) T() Type     { return TBool }
 func (Read) T() Type       { return TString }
 func (Input) T() Type      { return TString }
+func (App) T() Type        { return TVoid }
 
 // ---- statements ----
 
